@@ -577,3 +577,222 @@ Proof.
   - left. split; [left; discriminate|]. split; discriminate.
   - vm_compute. reflexivity.
 Qed.
+
+(** * Date-time level: absence of traps in to_naive_datetime_with_offset *)
+Lemma is_repr_dn d : is_repr d -> exists y o, repr y o d /\ -96000000 <= dn_of_yo y o <= 96000000.
+Proof.
+  intros (y & o & H). exists y, o. split; [exact H|].
+  pose proof (repr_dn_in_range _ _ _ H) as R. unfold dn_in_range, DN_MIN, DN_MAX in R. lia.
+Qed.
+
+Lemma dt_timestamp_total d t : is_repr d -> 0 <= Time.tsecs t < 86400 ->
+  exists ts, dt_timestamp (mk_ndt d t) = Val ts /\ -8400000000000 <= ts <= 8400000000000.
+Proof.
+  intros Hd Ht. destruct (is_repr_dn d Hd) as (y & o & H & Hb).
+  unfold dt_timestamp. cbn [nd_date nd_time]. rewrite (num_days_from_ce_spec _ _ _ H). cbn [bind].
+  unfold Time.num_seconds_from_midnight, DateTimeConsts.UNIX_EPOCH_DAY, sub_i64, mul_i64, add_i64, chk, in_i64, in_range, i64_min, i64_max.
+  replace ((-9223372036854775808 <=? dn_of_yo y o - 719163) && (dn_of_yo y o - 719163 <=? 9223372036854775807)) with true by lia.
+  cbn [bind].
+  replace ((-9223372036854775808 <=? (dn_of_yo y o - 719163) * 86400) && ((dn_of_yo y o - 719163) * 86400 <=? 9223372036854775807)) with true by lia.
+  cbn [bind].
+  replace ((-9223372036854775808 <=? (dn_of_yo y o - 719163) * 86400 + Time.tsecs t) &&
+           ((dn_of_yo y o - 719163) * 86400 + Time.tsecs t <=? 9223372036854775807)) with true by lia.
+  eexists. split; [reflexivity|lia].
+Qed.
+
+(** a date-time whose date is valid and whose time is a whole second of the day *)
+Definition plain_ndt (v : ndt) : Prop :=
+  is_repr (nd_date v) /\ 0 <= Time.tsecs (nd_time v) < 86400 /\ Time.tfrac (nd_time v) = 0.
+
+Lemma dt_from_timestamp_total ts : in_i64 ts = true ->
+  exists r, dt_from_timestamp ts 0 = Val r /\ forall v, r = Some v -> plain_ndt v.
+Proof.
+  intros Hts. unfold dt_from_timestamp, DateTimeConsts.DT_SECS_PER_DAY, DateTimeConsts.UNIX_EPOCH_DAY.
+  rewrite div_euclid_pos by lia. rewrite rem_euclid_pos by lia.
+  unfold add_i64, chk, in_i64, in_range, i64_min, i64_max in *.
+  replace ((-9223372036854775808 <=? ts / 86400) && (ts / 86400 <=? 9223372036854775807)) with true by lia.
+  cbn [bind].
+  replace ((-9223372036854775808 <=? ts / 86400 + 719163) && (ts / 86400 + 719163 <=? 9223372036854775807)) with true by lia.
+  cbn [bind].
+  destruct ((ts / 86400 + 719163 <? i32_min) || (i32_max <? ts / 86400 + 719163)) eqn:E;
+    [eexists; split; [reflexivity|intros; discriminate]|].
+  assert (Hi : in_i32 (ts / 86400 + 719163) = true) by (unfold in_i32, in_range, i32_min, i32_max in *; lia).
+  rewrite as_i32_id by exact Hi. rewrite from_num_days_from_ce_opt_spec by exact Hi. unfold obind. cbn [bind].
+  unfold date_if. destruct (dn_in_range (ts / 86400 + 719163)) eqn:Er; [|eexists; split; [reflexivity|intros; discriminate]].
+  rewrite as_u32_small by (unfold u32_max; lia).
+  unfold Time.from_num_seconds_from_midnight_opt, Time.urem.
+  replace ((ts mod 86400 >=? 86400) || (0 >=? 2000000000) || (0 >=? 1000000000) && negb (Z.rem (ts mod 86400) 60 =? 59))
+    with false by lia.
+  eexists. split; [reflexivity|]. intros v E'. inversion E'; subst v. unfold plain_ndt. cbn [nd_date nd_time Time.tsecs Time.tfrac].
+  split; [|lia]. eexists; eexists. apply date_of_dn_repr. exact Er.
+Qed.
+
+Lemma try_seconds_small n : -100000 <= n <= 100000 -> try_seconds n = Some (mk_td n 0).
+Proof.
+  intros H. unfold try_seconds, td_new, Gen.TimeDelta.TD_MIN_secs, Gen.TimeDelta.TD_MAX_secs, Gen.TimeDelta.TD_NEW_NANOS_BOUND.
+  match goal with |- (if ?c then _ else _) = _ => replace c with false by lia end. reflexivity.
+Qed.
+
+(** the leap-second step [datetime - 1 s] of the timestamp path never traps *)
+Lemma sub_one_second_total v one : plain_ndt v -> try_seconds 1 = Some one ->
+  exists r, ndt_checked_sub_signed v one = Val r.
+Proof.
+  intros (Hd & Hs & Hf) Hone. rewrite try_seconds_small in Hone by lia. inversion Hone; subst one. clear Hone.
+  destruct v as [d [s f]]. cbn [nd_date nd_time Time.tsecs Time.tfrac] in *. subst f.
+  unfold ndt_checked_sub_signed. cbn [nd_date nd_time].
+  unfold Time.overflowing_sub_signed.
+  change (td_neg (mk_td 1 0)) with (Val (mk_td (-1) 0)). cbn [bind].
+  unfold Time.overflowing_add_signed. cbn [Time.tsecs Time.tfrac].
+  change (num_seconds (mk_td (-1) 0)) with (Val (-1)). change (subsec_nanos (mk_td (-1) 0)) with (Val 0). cbn [bind].
+  rewrite (as_i64_id s) by (unfold in_i64, in_range, i64_min, i64_max; lia).
+  change (as_i32 0) with 0. change (0 >=? 1000000000) with false. cbv iota. cbn [bind].
+  unfold add_i64 at 1. unfold chk. replace (in_i64 (s + -1)) with true by (unfold in_i64, in_range, i64_min, i64_max; lia).
+  cbn [bind]. change (add_i32 0 0) with (Val 0). cbn [bind]. change (0 <? 0) with false. cbv iota.
+  change (0 >=? 1000000000) with false. cbv iota. cbn [bind].
+  rewrite rem_euclid_pos by lia. replace (in_i64 ((s + -1) / 86400)) with true by (unfold in_i64, in_range, i64_min, i64_max; lia).
+  cbn [bind]. unfold sub_i64, chk.
+  replace (in_i64 (s + -1 - (s + -1) mod 86400)) with true by (unfold in_i64, in_range, i64_min, i64_max; lia).
+  cbn [bind]. unfold neg_i64, chk.
+  replace (in_i64 (- (s + -1 - (s + -1) mod 86400))) with true by (unfold in_i64, in_range, i64_min, i64_max; lia).
+  cbn [bind]. set (nr := - (s + -1 - (s + -1) mod 86400)).
+  assert (Hnr : nr = 0 \/ nr = 86400) by (unfold nr; lia).
+  rewrite try_seconds_small by lia.
+  unfold Date.checked_sub_signed, num_days, num_seconds. cbn [secs nanos].
+  replace ((nr <? 0) && (0 >? 0)) with false by lia. cbn [bind].
+  unfold div_i64, Gen.TimeDelta.TD_SECS_PER_DAY. rewrite div_t_nz by lia. unfold chk.
+  replace (in_i64 (nr ÷ 86400)) with true by (unfold in_i64, in_range, i64_min, i64_max; lia). cbn [bind].
+  unfold neg_i64, chk. replace (in_i64 (- (nr ÷ 86400))) with true by (unfold in_i64, in_range, i64_min, i64_max; lia).
+  cbn [bind]. replace ((- (nr ÷ 86400) <? i32_min) || (i32_max <? - (nr ÷ 86400))) with false by (unfold i32_min, i32_max; lia).
+  destruct Hd as (y & o & H).
+  rewrite (add_days_spec _ _ _ _ H) by (rewrite as_i32_id; unfold in_i32, in_range, i32_min, i32_max; lia).
+  unfold obind. cbn [bind]. destruct (date_if _ _); eexists; reflexivity.
+Qed.
+
+Definition total {X} (x : R X) : Prop := exists r, x = Val r.
+Lemma total_val {X} (a : X) : total (Val a).
+Proof. eexists; reflexivity. Qed.
+Lemma bind_total {X Y} (x : R X) (f : X -> R Y) :
+  total x -> (forall a, x = Val a -> total (f a)) -> total (bind x f).
+Proof. intros [a Ha] Hf. specialize (Hf a Ha). rewrite Ha. exact Hf. Qed.
+Lemma ebind_total {X Y} (x : R (res X)) (f : X -> R (res Y)) :
+  total x -> (forall a, x = Val (Ok a) -> total (f a)) -> total (ebind x f).
+Proof.
+  intros [r Hr] Hf. unfold ebind. rewrite Hr. cbn [bind]. destruct r as [a|e]; [apply Hf; exact Hr|apply total_val].
+Qed.
+Lemma tryset_total r : total (tryset r).
+Proof. unfold tryset. apply total_val. Qed.
+
+Section DateTimeTotal.
+  Hypothesis Hyp_iso_total : Fact_iso_week_total.
+  Hypothesis Hyp_isoywd_total : Fact_isoywd_total.
+  Hypothesis Hyp_isoywd_roundtrip : Fact_isoywd_roundtrip.
+
+  Lemma date_total p : typed p -> exists r, to_naive_date p = Val r /\ forall d, r = Ok d -> is_repr d.
+  Proof. apply (to_naive_date_total_modulo_iso Hyp_iso_total Hyp_isoywd_total Hyp_isoywd_roundtrip). Qed.
+  Lemma time_total p : typed p ->
+    exists r, to_naive_time p = Val r /\ forall t, r = Ok t -> 0 <= Time.tsecs t < 86400.
+  Proof.
+    intros T. destruct (typed_time p T) as (U1 & U2 & U3 & U4 & U5).
+    destruct (to_naive_time_spec p U1 U2 U3 U4 U5) as (r & Hr & Hs). exists r. split; [exact Hr|].
+    intros t ->. destruct Hs as (hd & hm & mi & F & ->). destruct F as (_ & _ & _ & R1 & R2 & R3 & R4 & _).
+    unfold time_of_fields. cbn [Time.tsecs]. destruct (unwrap_or (p_second p) 0 =? 60) eqn:E; lia.
+  Qed.
+
+  (** ABSENCE OF TRAPS in to_naive_datetime_with_offset (repaired code) for every typed field
+      state and every i32 offset: both paths, the leap-second step, and the unreachable!() arm *)
+  Theorem to_naive_datetime_total_modulo_iso p off : typed p -> in_i32 off = true ->
+    total (to_naive_datetime_with_offset p off).
+  Proof.
+    intros T Hoff. unfold to_naive_datetime_with_offset.
+    destruct (date_total p T) as (rd & Hrd & Hrepr). destruct (time_total p T) as (rt & Hrt & Htr).
+    rewrite Hrd, Hrt. cbn [bind].
+    assert (PathB : forall ts, p_timestamp p = Some ts -> total (
+      if is_err_kind rd OutOfRange || is_err_kind rt OutOfRange then Val (Err OutOfRange)
+      else if is_err_kind rd Impossible || is_err_kind rt Impossible then Val (Err Impossible)
+      else
+        let! ts := ok_or (checked_add in_i64 ts off) OutOfRange in
+        let! datetime := ok_or_r (dt_from_timestamp ts 0) OutOfRange in
+        let! '(datetime, parsed) :=
+          (if opt_eqb (p_second p) (Some 60) then
+             let sec := Time.second (nd_time datetime) in
+             if sec =? 59 then Val (Ok (datetime, p))
+             else if sec =? 0 then
+               let* one := unwrap (try_seconds 1) in
+               let! d := ok_or_r (ndt_checked_sub_signed datetime one) OutOfRange in
+               Val (Ok (d, p))
+             else Val (Err Impossible)
+           else
+             let! p1 := tryset (Parsed.set_second p (Time.second (nd_time datetime))) in
+             Val (Ok (datetime, p1))) in
+        let! parsed := tryset (Parsed.set_year parsed (Date.d_year (nd_date datetime))) in
+        let! parsed := tryset (Parsed.set_ordinal parsed (Date.d_ordinal (nd_date datetime))) in
+        let* sh := Parsed.set_hour parsed (Time.hour (nd_time datetime)) in
+        let! parsed := tryset sh in
+        let! parsed := tryset (Parsed.set_minute parsed (Time.minute (nd_time datetime))) in
+        let! date := to_naive_date parsed in
+        let! time := to_naive_time parsed in
+        Val (Ok (mk_ndt date time)))).
+    { intros g Hg.
+      destruct (is_err_kind rd OutOfRange || is_err_kind rt OutOfRange); [apply total_val|].
+      destruct (is_err_kind rd Impossible || is_err_kind rt Impossible); [apply total_val|].
+      apply ebind_total; [apply total_val|]. intros ts Hts.
+      assert (Hi : in_i64 ts = true).
+      { unfold ok_or, checked_add, chko in Hts. destruct (in_i64 (g + off)) eqn:E; inversion Hts; subst. exact E. }
+      destruct (dt_from_timestamp_total ts Hi) as (r0 & Hr0 & Hplain).
+      apply ebind_total; [unfold ok_or_r, ok_or; rewrite Hr0; apply total_val|].
+      intros dtm0 Hdtm0. apply ok_or_r_ok in Hdtm0. rewrite Hr0 in Hdtm0. inversion Hdtm0 as [Hr0']. 
+      pose proof (Hplain dtm0 Hr0') as Hp0.
+      apply ebind_total.
+      { destruct (opt_eqb (p_second p) (Some 60)).
+        - cbv zeta. destruct (Time.second (nd_time dtm0) =? 59); [apply total_val|].
+          destruct (Time.second (nd_time dtm0) =? 0); [|apply total_val].
+          rewrite try_seconds_small by lia. cbn [unwrap bind].
+          destruct (sub_one_second_total dtm0 (mk_td 1 0) Hp0 (try_seconds_small 1 ltac:(lia))) as (r1 & Hr1).
+          unfold ebind, ok_or_r, ok_or. rewrite Hr1. cbn [bind]. destruct r1; apply total_val.
+        - apply ebind_total; [apply tryset_total|]. intros; apply total_val. }
+      intros [dtm p1] Hstep.
+      assert (T1 : typed p1).
+      { destruct (opt_eqb (p_second p) (Some 60)).
+        - cbv zeta in Hstep. destruct (Time.second (nd_time dtm0) =? 59); [inversion Hstep; subst; exact T|].
+          destruct (Time.second (nd_time dtm0) =? 0); [|discriminate].
+          apply bind_val in Hstep. destruct Hstep as (one & _ & Hstep).
+          apply ebind_ok in Hstep. destruct Hstep as (dd & _ & Hstep). inversion Hstep; subst. exact T.
+        - apply ebind_ok in Hstep. destruct Hstep as (q & Hq & Hstep). inversion Hstep; subst.
+          apply tryset_ok in Hq. destruct Hq as (u & Hq). unfold Parsed.set_second in Hq.
+          apply set_checked_step in Hq; [tauto|exact T|].
+          intros R. rewrite as_u32_small by (unfold u32_max; lia). unfold ftype, u32_max; lia. }
+      apply ebind_total; [apply tryset_total|]. intros p2 Hp2.
+      apply tryset_ok in Hp2. destruct Hp2 as (u2 & Hp2). unfold Parsed.set_year in Hp2.
+      apply set_checked_step in Hp2; [|exact T1|intros R; unfold ftype, in_i32, in_range; lia].
+      destruct Hp2 as (T2 & _).
+      apply ebind_total; [apply tryset_total|]. intros p3 Hp3.
+      apply tryset_ok in Hp3. destruct Hp3 as (u3 & Hp3). unfold Parsed.set_ordinal in Hp3.
+      apply set_checked_step in Hp3; [|exact T2|intros R; rewrite as_u32_small by (unfold u32_max; lia); unfold ftype, u32_max; lia].
+      destruct Hp3 as (T3 & _).
+      apply bind_total; [rewrite set_hour_value; apply total_val|]. intros sh Hsh.
+      apply ebind_total; [apply tryset_total|]. intros p4 Hp4.
+      apply tryset_ok in Hp4. destruct Hp4 as (u4 & Hp4). subst sh.
+      apply set_hour_step in Hsh; [|exact T3]. destruct Hsh as (T4 & _).
+      apply ebind_total; [apply tryset_total|]. intros p5 Hp5.
+      apply tryset_ok in Hp5. destruct Hp5 as (u5 & Hp5). unfold Parsed.set_minute in Hp5.
+      apply set_checked_step in Hp5; [|exact T4|intros R; rewrite as_u32_small by (unfold u32_max; lia); unfold ftype, u32_max; lia].
+      destruct Hp5 as (T5 & _).
+      destruct (date_total p5 T5) as (rd5 & Hrd5 & _). destruct (time_total p5 T5) as (rt5 & Hrt5 & _).
+      apply ebind_total; [rewrite Hrd5; apply total_val|]. intros d5 _.
+      apply ebind_total; [rewrite Hrt5; apply total_val|]. intros t5 _. apply total_val. }
+    destruct rd as [d|ed], rt as [t|et].
+    - (* from date and time fields: the timestamp arithmetic stays in i64 *)
+      destruct (dt_timestamp_total d t (Hrepr d eq_refl) (Htr t eq_refl)) as (ts0 & Hts0 & Hb).
+      rewrite Hts0. cbn [bind]. unfold sub_i64, chk.
+      assert (Ho : -2147483648 <= off <= 2147483647) by (unfold in_i32, in_range, i32_min, i32_max in Hoff; lia).
+      replace (in_i64 (ts0 - off)) with true by (unfold in_i64, in_range, i64_min, i64_max; lia). cbn [bind].
+      destruct (p_timestamp p) as [g|]; [|apply total_val].
+      destruct (negb (g =? ts0 - off)); cbn [bind]; [|apply total_val].
+      cbn [nd_time]. destruct (Time.nanosecond t >=? 1000000000); cbn [bind]; [|apply total_val].
+      unfold add_i64, chk. replace (in_i64 (ts0 - off + 1)) with true by (unfold in_i64, in_range, i64_min, i64_max; lia).
+      cbn [bind]. destruct (negb (g =? ts0 - off + 1)); apply total_val.
+    - destruct (p_timestamp p) as [g|] eqn:Eg; [exact (PathB g eq_refl)|apply total_val].
+    - destruct (p_timestamp p) as [g|] eqn:Eg; [exact (PathB g eq_refl)|apply total_val].
+    - destruct (p_timestamp p) as [g|] eqn:Eg; [exact (PathB g eq_refl)|apply total_val].
+  Qed.
+End DateTimeTotal.
